@@ -66,7 +66,8 @@ def gen_item(rng, uid):
     if ident[0] == "mod":
         # the word after the date must not be ZID-shaped (it would be the note's ZID: that is the form "modzid");
         # long dates, six-digit look-alikes and everything else are body words
-        words = [w for w in words[:1] if w[0] != "zid"] + words[1:]
+        while words and words[0][0] == "zid":
+            words = words[1:]
         if rng.random() < 0.5:
             words = [["date", rand_date(rng).isoformat()]] + words
     return [kind, [prio] if prio else None, ident, words]
